@@ -289,6 +289,8 @@ pub enum Mark {
     Flow { start: usize, end: usize },
     /// the scalar text of a plain implicit key of a block mapping entry
     PlainBlockKey { start: usize, end: usize },
+    /// a plain scalar inside a flow collection; `parent` = indentation of the enclosing block construct
+    FlowPlain { start: usize, end: usize, parent: isize },
 }
 
 pub struct R<'a> {
@@ -415,7 +417,13 @@ impl<'a> R<'a> {
                     self.out.pop();
                 }
             }
-            N::Sc(s, st) => self.scalar_text(s, *st),
+            N::Sc(s, st) => {
+                let from = self.out.len();
+                self.scalar_text(s, *st);
+                if *st == 0 && !s.is_empty() && !self.flow_parent.is_empty() {
+                    self.marks.push(Mark::FlowPlain { start: from, end: self.out.len(), parent: n });
+                }
+            }
             N::Alias(i) => self.out.push_str(&format!("*a{i}")),
             N::Seq(k, _) => {
                 let fstart = self.out.len();
